@@ -21,6 +21,7 @@ import (
 	"github.com/cometbft/cometbft/crypto"
 
 	sdk "github.com/cosmos/cosmos-sdk/types"
+	"github.com/cosmos/cosmos-sdk/types/address"
 	sdkerrors "github.com/cosmos/cosmos-sdk/types/errors"
 	authtypes "github.com/cosmos/cosmos-sdk/x/auth/types"
 	bankkeeper "github.com/cosmos/cosmos-sdk/x/bank/keeper"
@@ -68,12 +69,19 @@ func quarGetEnv(t *testing.T) *quarEnv {
 		for _, n := range quarNames {
 			e.addrs[n] = sdk.AccAddress(crypto.AddressHash([]byte("verif-quar-" + n)))
 		}
+		// E is a 32-byte address (module/group-policy style): record keys cut single senders to 32 bytes,
+		// so "E+" (= E followed by one zero byte, a different valid address) shares E's record suffix
+		e.addrs["E"] = sdk.AccAddress(address.Module("verif-quar", []byte("E")))
 		e.addrs[quarHolder] = a.QuarantineKeeper.GetFundsHolder()
 		all := append(append([]string{}, quarNames...), quarHolder)
 		for _, n := range all {
 			e.names[string(e.addrs[n])] = n
 			e.sfx[string(e.addrs[n])] = n
 		}
+		// "E+": E followed by one zero byte (only ever named in accept lists)
+		ePlus := append(append(sdk.AccAddress{}, e.addrs["E"]...), 0x00)
+		e.names[string(ePlus)] = "E+"
+		e.sfx[string(ePlus)] = "E+"
 		// every sender set of size >= 2: sha256 of the byte-sorted concatenation (keys.go:120)
 		for mask := 1; mask < 1<<len(all); mask++ {
 			var ns []string
@@ -126,6 +134,13 @@ func (e *quarEnv) sfxName(s []byte) string {
 }
 
 func (e *quarEnv) addr(n string) (sdk.AccAddress, bool) {
+	if strings.HasSuffix(n, "+") {
+		a, ok := e.addrs[strings.TrimSuffix(n, "+")]
+		if !ok {
+			return nil, false
+		}
+		return append(append(sdk.AccAddress{}, a...), 0x00), true
+	}
 	a, ok := e.addrs[n]
 	return a, ok
 }
@@ -794,6 +809,12 @@ func (g *quarGen) op(hot []string) string {
 		}
 		if g.r.Chance(5) && len(fs) > 0 {
 			fs = append(fs, fs[0]) // a sender named twice
+		}
+		for _, f := range fs {
+			if f == "E" && g.r.Chance(50) {
+				fs = append(fs, "E+") // a longer address sharing E's 32-byte record suffix
+				break
+			}
 		}
 		return fmt.Sprintf("accept %s %s %s", to, JoinOr(fs, "|"), g.perm())
 	default:
